@@ -52,9 +52,9 @@ unsafe fn free_quarantined(q: &[(usize, usize, usize)]) {
 // ------------------------------------------------------------------------------------------------
 // program language
 
-pub const OP_NAMES: [&str; 13] = [
+pub const OP_NAMES: [&str; 14] = [
     "clone via &Bytes", "clone own", "read+compare", "slice(1..)", "drop one", "try_into_mut (+write if Ok)", "Vec::from (Bytes or BytesMut; +write if zero-copy)", "BytesMut::from (+write if zero-copy)",
-    "reserve(n) on BytesMut half (+fill spare)", "try_reclaim(n) on BytesMut half (+fill spare)", "truncate(1)", "unsplit(halves)/freeze", "is_unique()",
+    "reserve(n) on BytesMut half (+fill spare)", "try_reclaim(n) on BytesMut half (+fill spare)", "truncate(1)", "unsplit(halves)/freeze", "is_unique()", "split_to(1) on BytesMut half, read + drop the part",
 ];
 pub const HANDLE_NAMES: [&str; 5] = ["own clone", "&Bytes to main's handle", "BytesMut tail half", "frozen tail half", "the base handle itself (moved)"];
 pub const REPR_NAMES: [&str; 7] = ["promotable (Box<[u8]>-backed, unshared)", "bytes.rs SHARED (Vec with spare)", "bytes_mut.rs SHARED (frozen head of a split BytesMut)", "owner", "static", "promotable, unshared, view advanced by 3", "frozen advanced BytesMut (promotable with a front offset)"];
@@ -86,9 +86,9 @@ impl Program {
     pub fn describe(&self) -> String {
         let mut s = format!("storage: {}{}; ", REPR_NAMES[self.repr as usize % 7], if self.odd { " at an odd address" } else { "" });
         for (i, (h, ops)) in self.threads.iter().enumerate() {
-            s += &format!("T{} holds {} and does [{}]; ", i + 1, HANDLE_NAMES[*h as usize % 5], ops.iter().map(|o| OP_NAMES[*o as usize % 13]).collect::<Vec<_>>().join(", "));
+            s += &format!("T{} holds {} and does [{}]; ", i + 1, HANDLE_NAMES[*h as usize % 5], ops.iter().map(|o| OP_NAMES[*o as usize % 14]).collect::<Vec<_>>().join(", "));
         }
-        s += &format!("main after join: [{}]", self.main_final.iter().map(|o| OP_NAMES[*o as usize % 13]).collect::<Vec<_>>().join(", "));
+        s += &format!("main after join: [{}]", self.main_final.iter().map(|o| OP_NAMES[*o as usize % 14]).collect::<Vec<_>>().join(", "));
         s
     }
 }
@@ -165,7 +165,7 @@ fn exclusive_write(ptr: usize, region: &mut [u8], what: &str, own_handles: i32) 
 
 fn run_op(l: &mut Local, op: u8) {
     let who = l.tname;
-    match op % 13 {
+    match op % 14 {
         12 => {
             // a &self query that other threads may run into with their clones / drops: only its accesses matter here
             // (the answer is racy by nature), the happens-before checker sees every atomic and the blocks it touches
@@ -179,6 +179,24 @@ fn run_op(l: &mut Local, op: u8) {
                         let base: &Bytes = unsafe { &*(p as *const Bytes) };
                         let _ = rt::bracket(|| base.is_unique());
                     }
+                }
+            }
+        }
+        13 => {
+            // split a BytesMut that is already in shared form once more (BytesMut::shallow_clone: another reference on the same
+            // control block), read the part and give it up again
+            if let Some(H::M(m, e)) = l.hs.last_mut() {
+                if m.len() >= 2 {
+                    let p = m.as_ptr() as usize;
+                    let part = rt::bracket(|| m.split_to(1));
+                    reg(part.as_ptr() as usize);
+                    if part.as_ptr() as usize != p || m.as_ptr() as usize != p + 1 {
+                        rt::report("C05", "split-at-other-address", format!("thread {}: split_to(1) of a BytesMut at {:#x} gave part {:#x} / rest {:#x}", who, p, part.as_ptr() as usize, m.as_ptr() as usize));
+                    }
+                    check_read(&part[..], &e[..1], who, "through the split-off part");
+                    e.remove(0);
+                    unreg(part.as_ptr() as usize);
+                    rt::bracket(move || drop(part));
                 }
             }
         }
@@ -271,7 +289,7 @@ fn run_op(l: &mut Local, op: u8) {
                 let len = b.len();
                 rt::exclusive_attempt();
                 unreg(p); // in release: the conversion consumes this handle
-                match op % 13 {
+                match op % 14 {
                     5 => match rt::bracket(|| b.try_into_mut()) {
                         Ok(mut m) => {
                             let mut e = e;
@@ -318,12 +336,12 @@ fn run_op(l: &mut Local, op: u8) {
                 let p = m.as_ptr() as usize;
                 let blk = rt::block_info(p);
                 let cap0 = m.capacity();
-                let want = if op % 13 == 8 { N } else { N / 2 + 1 };
+                let want = if op % 14 == 8 { N } else { N / 2 + 1 };
                 // retry a bounded number of times: the sibling may be released in between
                 let mut ok = false;
                 for _ in 0..2 {
                     unreg(p);
-                    ok = if op % 13 == 8 {
+                    ok = if op % 14 == 8 {
                         rt::bracket(|| m.reserve(want));
                         true
                     } else {
